@@ -73,6 +73,12 @@ Proofs/DynamicProofs.vos Proofs/DynamicProofs.vok Proofs/DynamicProofs.required_
 Proofs/VarProofs.vo Proofs/VarProofs.glob Proofs/VarProofs.v.beautified Proofs/VarProofs.required_vo: Proofs/VarProofs.v Compiler/Emit.vo Proofs/EmitProofs.vo Proofs/EmitInv.vo
 Proofs/VarProofs.vio: Proofs/VarProofs.v Compiler/Emit.vio Proofs/EmitProofs.vio Proofs/EmitInv.vio
 Proofs/VarProofs.vos Proofs/VarProofs.vok Proofs/VarProofs.required_vos: Proofs/VarProofs.v Compiler/Emit.vos Proofs/EmitProofs.vos Proofs/EmitInv.vos
+Proofs/SegProofs.vo Proofs/SegProofs.glob Proofs/SegProofs.v.beautified Proofs/SegProofs.required_vo: Proofs/SegProofs.v Compiler/Emit.vo Proofs/Utf8Proofs.vo Proofs/QuoteProofs.vo Proofs/ChunkProofs.vo Proofs/EmitProofs.vo Proofs/PassThroughProofs.vo Proofs/DynamicProofs.vo Proofs/StaticProofs.vo
+Proofs/SegProofs.vio: Proofs/SegProofs.v Compiler/Emit.vio Proofs/Utf8Proofs.vio Proofs/QuoteProofs.vio Proofs/ChunkProofs.vio Proofs/EmitProofs.vio Proofs/PassThroughProofs.vio Proofs/DynamicProofs.vio Proofs/StaticProofs.vio
+Proofs/SegProofs.vos Proofs/SegProofs.vok Proofs/SegProofs.required_vos: Proofs/SegProofs.v Compiler/Emit.vos Proofs/Utf8Proofs.vos Proofs/QuoteProofs.vos Proofs/ChunkProofs.vos Proofs/EmitProofs.vos Proofs/PassThroughProofs.vos Proofs/DynamicProofs.vos Proofs/StaticProofs.vos
+Properties/C01.vo Properties/C01.glob Properties/C01.v.beautified Properties/C01.required_vo: Properties/C01.v Compiler/Compile.vo Base/Regex.vo Proofs/Utf8Proofs.vo Proofs/QuoteProofs.vo Proofs/EmitProofs.vo Proofs/StaticProofs.vo Proofs/StaticNukeProofs.vo Proofs/DynamicProofs.vo Proofs/SegProofs.vo
+Properties/C01.vio: Properties/C01.v Compiler/Compile.vio Base/Regex.vio Proofs/Utf8Proofs.vio Proofs/QuoteProofs.vio Proofs/EmitProofs.vio Proofs/StaticProofs.vio Proofs/StaticNukeProofs.vio Proofs/DynamicProofs.vio Proofs/SegProofs.vio
+Properties/C01.vos Properties/C01.vok Properties/C01.required_vos: Properties/C01.v Compiler/Compile.vos Base/Regex.vos Proofs/Utf8Proofs.vos Proofs/QuoteProofs.vos Proofs/EmitProofs.vos Proofs/StaticProofs.vos Proofs/StaticNukeProofs.vos Proofs/DynamicProofs.vos Proofs/SegProofs.vos
 Properties/C03.vo Properties/C03.glob Properties/C03.v.beautified Properties/C03.required_vo: Properties/C03.v Compiler/Compile.vo Proofs/EmitProofs.vo Proofs/EmitInv.vo Proofs/VarProofs.vo Proofs/PassThroughProofs.vo Proofs/DynamicProofs.vo
 Properties/C03.vio: Properties/C03.v Compiler/Compile.vio Proofs/EmitProofs.vio Proofs/EmitInv.vio Proofs/VarProofs.vio Proofs/PassThroughProofs.vio Proofs/DynamicProofs.vio
 Properties/C03.vos Properties/C03.vok Properties/C03.required_vos: Properties/C03.v Compiler/Compile.vos Proofs/EmitProofs.vos Proofs/EmitInv.vos Proofs/VarProofs.vos Proofs/PassThroughProofs.vos Proofs/DynamicProofs.vos
@@ -169,9 +175,6 @@ Proofs/NukeProofs.vos Proofs/NukeProofs.vok Proofs/NukeProofs.required_vos: Proo
 Proofs/StaticNukeProofs.vo Proofs/StaticNukeProofs.glob Proofs/StaticNukeProofs.v.beautified Proofs/StaticNukeProofs.required_vo: Proofs/StaticNukeProofs.v Compiler/Emit.vo Base/Regex.vo Proofs/NukeProofs.vo Proofs/EmitProofs.vo Proofs/StaticProofs.vo
 Proofs/StaticNukeProofs.vio: Proofs/StaticNukeProofs.v Compiler/Emit.vio Base/Regex.vio Proofs/NukeProofs.vio Proofs/EmitProofs.vio Proofs/StaticProofs.vio
 Proofs/StaticNukeProofs.vos Proofs/StaticNukeProofs.vok Proofs/StaticNukeProofs.required_vos: Proofs/StaticNukeProofs.v Compiler/Emit.vos Base/Regex.vos Proofs/NukeProofs.vos Proofs/EmitProofs.vos Proofs/StaticProofs.vos
-Properties/C01.vo Properties/C01.glob Properties/C01.v.beautified Properties/C01.required_vo: Properties/C01.v Compiler/Compile.vo Base/Regex.vo Proofs/Utf8Proofs.vo Proofs/QuoteProofs.vo Proofs/EmitProofs.vo Proofs/StaticProofs.vo Proofs/StaticNukeProofs.vo
-Properties/C01.vio: Properties/C01.v Compiler/Compile.vio Base/Regex.vio Proofs/Utf8Proofs.vio Proofs/QuoteProofs.vio Proofs/EmitProofs.vio Proofs/StaticProofs.vio Proofs/StaticNukeProofs.vio
-Properties/C01.vos Properties/C01.vok Properties/C01.required_vos: Properties/C01.v Compiler/Compile.vos Base/Regex.vos Proofs/Utf8Proofs.vos Proofs/QuoteProofs.vos Proofs/EmitProofs.vos Proofs/StaticProofs.vos Proofs/StaticNukeProofs.vos
 Proofs/SrcMapProofs.vo Proofs/SrcMapProofs.glob Proofs/SrcMapProofs.v.beautified Proofs/SrcMapProofs.required_vo: Proofs/SrcMapProofs.v Compiler/SrcMap.vo
 Proofs/SrcMapProofs.vio: Proofs/SrcMapProofs.v Compiler/SrcMap.vio
 Proofs/SrcMapProofs.vos Proofs/SrcMapProofs.vok Proofs/SrcMapProofs.required_vos: Proofs/SrcMapProofs.v Compiler/SrcMap.vos
